@@ -19,17 +19,22 @@ func init() { register("C08", c08) }
 //       ((err "msg") (wstats (((id i) (tree1 (q..)) (tree2 (q..)) (common (q..)) (same T|F) (serr "msg")) ...)))  weighted
 //       ((err "msg") (tree1 n) (common n))                                                      common
 //       ((hang T))   when the stats channel was not closed within 8 s
-// preUse puts a tree in the state of a tree that was used before: indexed (ReinitIndexes), then
-// modified through a public edit that does not (completely) re-index it.  The edit is
+// preUse gives a tree a history: it is indexed (ReinitIndexes), then goes through public edits that
+// a caller could perform before comparing, none of which is followed by a re-indexing of ours.
 //   (none) | (rename "a" "b") | (setname "a" "b") | (reroot i) | (rotate seed) | (unroot)
-// (none) leaves the freshly built tree untouched (not even indexed).
-func preUse(t *tree.Tree, e *Sexp) string {
+//   | (removetips "x" ...) | (collapse len) | (reinit) | (clone) | (seq E ...)
+// (none) leaves the freshly built tree untouched (not even indexed).  The (possibly new) tree is returned.
+func preUse(t *tree.Tree, e *Sexp) (*tree.Tree, string) {
 	if e == nil || !e.IsList || len(e.List) == 0 || e.List[0].Atom == "none" {
-		return ""
+		return t, ""
 	}
 	if err := t.ReinitIndexes(); err != nil {
-		return "reinit: " + err.Error()
+		return t, "reinit: " + err.Error()
 	}
+	return applyEdit(t, e)
+}
+
+func applyEdit(t *tree.Tree, e *Sexp) (*tree.Tree, string) {
 	arg := func(i int) string {
 		if i < len(e.List) {
 			return e.List[i].Atom
@@ -37,9 +42,17 @@ func preUse(t *tree.Tree, e *Sexp) string {
 		return ""
 	}
 	switch e.List[0].Atom {
+	case "none":
+	case "seq":
+		for _, sub := range e.List[1:] {
+			var m string
+			if t, m = applyEdit(t, sub); m != "" {
+				return t, m
+			}
+		}
 	case "rename":
 		if err := t.Rename(map[string]string{arg(1): arg(2), arg(2): arg(1)}); err != nil {
-			return "rename: " + err.Error()
+			return t, "rename: " + err.Error()
 		}
 	case "setname":
 		var na, nb *tree.Node
@@ -58,9 +71,7 @@ func preUse(t *tree.Tree, e *Sexp) string {
 		i, _ := strconv.Atoi(arg(1))
 		nodes := t.Nodes()
 		if i < len(nodes) {
-			if err := t.Reroot(nodes[i]); err != nil {
-				return ""
-			}
+			_ = t.Reroot(nodes[i])
 		}
 	case "rotate":
 		seed, _ := strconv.ParseInt(arg(1), 10, 64)
@@ -68,10 +79,27 @@ func preUse(t *tree.Tree, e *Sexp) string {
 		t.RotateInternalNodes()
 	case "unroot":
 		t.UnRoot()
+	case "removetips":
+		names := []string{}
+		for _, a := range e.List[1:] {
+			names = append(names, a.Atom)
+		}
+		if err := t.RemoveTips(false, names...); err != nil {
+			return t, "removetips: " + err.Error()
+		}
+	case "collapse":
+		l, _ := ParseQ(arg(1))
+		t.CollapseShortBranches(l, false, false)
+	case "reinit":
+		if err := t.ReinitIndexes(); err != nil {
+			return t, "reinit: " + err.Error()
+		}
+	case "clone":
+		t = t.Clone()
 	default:
-		return "unknown edit " + e.List[0].Atom
+		return t, "unknown edit " + e.List[0].Atom
 	}
-	return ""
+	return t, ""
 }
 
 func c08(c *Sexp) *Sexp {
@@ -95,13 +123,15 @@ func c08(c *Sexp) *Sexp {
 	// pre-used trees: (pre1 E) for the reference, (pres (E ...)) for the compared trees
 	after := L()
 	problems := []string{}
-	if m := preUse(t1, c.Get("pre1")); m != "" {
-		return L(KV("panic", A("pre1: "+m)))
+	var pm string
+	if t1, pm = preUse(t1, c.Get("pre1")); pm != "" {
+		return L(KV("panic", A("pre1: "+pm)))
 	}
 	if pres := c.Get("pres"); pres != nil && pres.IsList {
 		for i, e := range pres.List {
 			if i < len(t2s) {
-				if m := preUse(t2s[i], e); m != "" {
+				var m string
+				if t2s[i], m = preUse(t2s[i], e); m != "" {
 					return L(KV("panic", A(fmt.Sprintf("pres[%d]: %s", i, m))))
 				}
 			}
@@ -123,7 +153,8 @@ func c08(c *Sexp) *Sexp {
 			return L(KV("panic", A("build t2: "+err.Error())))
 		}
 		if pres := c.Get("pres"); pres != nil && pres.IsList && len(pres.List) > 0 {
-			if m := preUse(t2, pres.List[0]); m != "" {
+			var m string
+			if t2, m = preUse(t2, pres.List[0]); m != "" {
 				return L(KV("panic", A("pres[0]: "+m)))
 			}
 		}
@@ -142,6 +173,10 @@ func c08(c *Sexp) *Sexp {
 		r.List = append(r.List, after.List...)
 		return r
 	}
+	cpus := 1
+	if c.Get("cpus") != nil {
+		cpus = c.Int("cpus")
+	}
 	done := make(chan *Sexp, 1)
 	go func() {
 		defer func() {
@@ -156,13 +191,17 @@ func c08(c *Sexp) *Sexp {
 		close(ch)
 		switch op {
 		case "compare":
-			stats, e := tree.Compare(t1, ch, tips, ident, 1)
+			stats, e := tree.Compare(t1, ch, tips, ident, cpus)
 			if e != nil {
 				done <- L(KV("err", A(errStr(e))))
 				return
 			}
 			recs := L()
 			for st := range stats {
+				if cpus > 1 {
+					// a slow consumer: workers wait on the unbuffered channel with their record ready
+					time.Sleep(50 * time.Microsecond)
+				}
 				recs.List = append(recs.List, L(KV("id", I(st.Id)), KV("tree1", I(st.Tree1)), KV("tree2", I(st.Tree2)), KV("common", I(st.Common)),
 					KV("same", B(st.Sametree)), KV("serr", A(errStr(st.Err)))))
 			}
@@ -170,7 +209,7 @@ func c08(c *Sexp) *Sexp {
 			r.List = append(r.List, after.List...)
 			done <- r
 		case "weighted":
-			stats, e := tree.CompareWeighted(t1, ch, tips, ident, 1)
+			stats, e := tree.CompareWeighted(t1, ch, tips, ident, cpus)
 			if e != nil {
 				done <- L(KV("err", A(errStr(e))))
 				return
